@@ -185,6 +185,10 @@ impl ToPrimitive for BigUint {
     #[verifier::external_body] fn to_u8(&self) -> (ret: Option<u8>) { unimplemented!() }
 }
 
+/// num_traits::CheckedSub -- marker only: `diff`/`checked_diff` are the sole users and are instantiated at i64
+pub trait CheckedSub: Sized {}
+impl CheckedSub for i64 {}
+
 /// num_integer::Integer (the methods the crate uses)
 pub trait NumInteger: Sized {
     spec fn int_val(&self) -> int;
@@ -227,6 +231,10 @@ pub trait Signed: Sized {
     spec fn signed_val(&self) -> int;
     spec fn abs_post(&self, ret: &Self) -> bool;
     fn abs(&self) -> (ret: Self) ensures self.abs_post(&ret);
+    spec fn abs_sub_post(&self, other: &Self, ret: &Self) -> bool;
+    fn abs_sub(&self, other: &Self) -> (ret: Self) ensures self.abs_sub_post(other, &ret);
+    spec fn signum_post(&self, ret: &Self) -> bool;
+    fn signum(&self) -> (ret: Self) ensures self.signum_post(&ret);
     fn is_positive(&self) -> (ret: bool) ensures ret == (self.signed_val() > 0);
     fn is_negative(&self) -> (ret: bool) ensures ret == (self.signed_val() < 0);
 }
@@ -234,6 +242,10 @@ impl Signed for BigInt {
     open spec fn signed_val(&self) -> int { self@ }
     open spec fn abs_post(&self, ret: &Self) -> bool { ret@ == iabs(self@) }
     #[verifier::external_body] fn abs(&self) -> (ret: Self) { unimplemented!() }
+    open spec fn abs_sub_post(&self, other: &Self, ret: &Self) -> bool { ret@ == (if self@ <= other@ { 0 } else { self@ - other@ }) }
+    #[verifier::external_body] fn abs_sub(&self, other: &Self) -> (ret: Self) { unimplemented!() }
+    open spec fn signum_post(&self, ret: &Self) -> bool { ret@ == isgn(self@) }
+    #[verifier::external_body] fn signum(&self) -> (ret: Self) { unimplemented!() }
     #[verifier::external_body] fn is_positive(&self) -> (ret: bool) { unimplemented!() }
     #[verifier::external_body] fn is_negative(&self) -> (ret: bool) { unimplemented!() }
 }
@@ -382,6 +394,9 @@ pub assume_specification<T> [<[T]>::split_last] (s: &[T]) -> (ret: Option<(&T, &
 pub assume_specification<T: Ord> [core::cmp::max] (a: T, b: T) -> (ret: T)
     ensures T::obeys_cmp_spec() ==> ret == (if a.cmp_spec(&b) == Ordering::Greater { a } else { b });
 
+pub assume_specification [i64::saturating_sub] (a: i64, b: i64) -> (ret: i64)
+    ensures ret == (if a - b > i64::MAX { i64::MAX } else if a - b < i64::MIN { i64::MIN } else { (a - b) as i64 });
+
 pub assume_specification [core::cmp::Ordering::reverse] (o: Ordering) -> (ret: Ordering)
     ensures ret == (match o { Ordering::Less => Ordering::Greater, Ordering::Equal => Ordering::Equal, Ordering::Greater => Ordering::Less });
 
@@ -389,6 +404,34 @@ pub assume_specification [core::cmp::Ordering::reverse] (o: Ordering) -> (ret: O
 pub assume_specification [u64::pow] (b: u64, e: u32) -> (ret: u64)
     requires vstd::arithmetic::power::pow(b as int, e as nat) <= u64::MAX
     ensures ret == vstd::arithmetic::power::pow(b as int, e as nat);
+
+// core::num::NonZeroU64 / NonZeroU8 / NonZeroUsize stand-ins (core's NonZero<T> is generic over an unstable
+// trait and cannot be given an external type specification); same method names, assumed semantics
+macro_rules! nonzero_shim {
+    ($name:ident, $t:ty, $view:ident, $ax:ident) => { verus! {
+        #[verifier::external_body]
+        pub struct $name { v: $t }
+        pub uninterp spec fn $view(x: $name) -> $t;
+        #[verifier::external_body]
+        pub broadcast proof fn $ax(x: $name) ensures #[trigger] $view(x) > 0 {}
+        impl Clone for $name {
+            #[verifier::external_body]
+            fn clone(&self) -> (ret: Self) ensures ret == *self { unimplemented!() }
+        }
+        impl Copy for $name {}
+        impl $name {
+            #[verifier::external_body]
+            pub fn get(self) -> (ret: $t) ensures ret == $view(self), ret > 0 { unimplemented!() }
+            #[verifier::external_body]
+            pub fn new(v: $t) -> (ret: Option<$name>)
+                ensures v == 0 ==> ret.is_none(), v != 0 ==> ret.is_some() && $view(ret.unwrap()) == v
+            { unimplemented!() }
+        }
+    } };
+}
+nonzero_shim!(NonZeroU64, u64, nz64, axiom_nz64_pos);
+nonzero_shim!(NonZeroU8, u8, nz8, axiom_nz8_pos);
+nonzero_shim!(NonZeroUsize, usize, nzusize, axiom_nzusize_pos);
 
 // @@GENERATED-OPS@@
 
